@@ -12,7 +12,7 @@ import (
 
 func init() {
 	register(&propCheck{id: "C05", needRoot: true, run: checkC05,
-		explanation: "Model assumed by the property: each physical batch write is atomic and ordered; the flusher may write between any two batch operations. Decided statically (necessary conditions under that model): (1) PASS — every success return of SaveVersion, DeleteVersionsTo, DeleteVersionsFrom, LoadVersionForOverwriting, the index build and Importer.Commit is reached with no batch mutation issued after the last commit call (otherwise the tail of one operation is flushed with the next one); callee summaries are verified, not assumed; (2) ORDER — visibility marker last: the root is appended to the list of new nodes after both subtrees, root writers are the last batch mutations before Commit in SaveVersion, the importer's root marker follows every node write and the latest version is published only after WriteSync succeeded; (3) ORDER — re-keying a shared root writes the new key before deleting the old one; (4) OWN — the only functions that issue a physical write are the commit points; the early flush inside the batch wrapper and the importer's 10 000-node flush are listed KNOWN FINDINGS (a cut there leaves a database that Load() rejects); (5) DOM — every answer taken from the fast index is dominated by the `last updated <= queried version` / `version == latest` guard, which is what keeps index entries flushed by an interrupted commit invisible after the reopen at the previous version. NOT decided: whether the state at a given cut actually reopens to old or new — that needs executing recovery."})
+		explanation: "Model assumed by the property: each physical batch write is atomic and ordered; the flusher may write between any two batch operations. Decided statically (necessary conditions under that model): (1) PASS — every success return of SaveVersion, DeleteVersionsTo, DeleteVersionsFrom, LoadVersionForOverwriting, the index build and Importer.Commit is reached with no batch mutation issued after the last commit call (otherwise the tail of one operation is flushed with the next one); callee summaries are verified, not assumed; (2) ORDER — visibility marker last: the root is appended to the list of new nodes after both subtrees, root writers are the last batch mutations before Commit in SaveVersion, the importer's root marker follows every node write and the latest version is published only after WriteSync succeeded; (3) ORDER — re-keying a shared root writes the new key before deleting the old one; (4) OWN — the only functions that issue a physical write are the commit points; the early flush inside the batch wrapper and the importer's 10 000-node flush are listed KNOWN FINDINGS (a cut there leaves a database that Load() rejects); (5) DOM — every answer taken from the fast index is dominated by the `last updated <= queried version` / `version == latest` guard, which is what keeps index entries flushed by an interrupted commit invisible after the reopen at the previous version. NOT decided: whether the state at a given cut actually reopens to old or new — that needs executing recovery. Rules added in the later seeding rounds (each listed with what it decides in this file's rule table) are described in DESIGN.md §3 \"Third and fourth seeding rounds\" and Appendix C3–C5."})
 }
 
 type cleanAnalysis struct {
